@@ -210,7 +210,11 @@ _warc_header(struct archive_write *a, struct archive_entry *entry)
 			archive_strncat(&hdr, "\r\n\r\n", 4);
 
 			/* write to output stream */
-			__archive_write_output(a, hdr.s, archive_strlen(&hdr));
+			r = __archive_write_output(a, hdr.s, archive_strlen(&hdr));
+			if (r != ARCHIVE_OK) {
+				archive_string_free(&hdr);
+				return ((int)r);
+			}
 		}
 		/* indicate we're done with file header writing */
 		w->omit_warcinfo = 1U;
@@ -252,10 +256,12 @@ _warc_header(struct archive_write *a, struct archive_entry *entry)
 			return (ARCHIVE_WARN);
 		}
 		/* otherwise append to output stream */
-		__archive_write_output(a, hdr.s, r);
+		r = __archive_write_output(a, hdr.s, r);
+		archive_string_free(&hdr);
+		if (r != ARCHIVE_OK)
+			return ((int)r);
 		/* and let subsequent calls to _data() know about the size */
 		w->populz = rh.cntlen;
-		archive_string_free(&hdr);
 		return (ARCHIVE_OK);
 	}
 	/* just resort to erroring as per Tim's advice */
